@@ -241,6 +241,32 @@ def halton_dimensions(args):
     return body
 
 
+def halton_sample_counts(args):
+    """CONCRETE supplement (no symbolic input; decides nothing about other N): the digit law is proved symbolically for
+    every index below b^K on the loop body of _van_der_corput; an implementation that computes the number of digits
+    from the SAMPLE COUNT (logarithms, bit lengths) can only be probed: the last points of the sequence for sample
+    counts around every power of the first seven prime bases, against the exact radical inverse."""
+    doecommon.install()
+    import artap.doe as DOE
+
+    def body(ctx):
+        limit = args['limit']
+        for b in (2, 3, 5, 7, 11, 13, 17):
+            counts, p = set(), b
+            while p <= limit:
+                counts.update((p - 1, p, p + 1, p + 2))
+                p *= b
+            for N in sorted(c for c in counts if 1 <= c <= limit + 2):
+                seq = list(DOE._van_der_corput(N, b))
+                bad = len(seq) != N or any(abs(float(seq[i]) - float(_radical_inverse(i, b))) > 1e-12 for i in range(max(0, N - 3), N))
+                ctx.check('van-der-corput-last-points(base=%d)' % b, bad)
+                if bad:
+                    ctx.output('first-bad-count-base%d' % b, N)
+                    break
+        ctx.output('limit', limit)
+    return body
+
+
 def grid(args):
     k, n = args['k'], args['n']
     doecommon.install()
@@ -328,6 +354,8 @@ def configs(tier):
     for n in ((5, 6) if Q else (5, 6, 7, 8)):
         out.append({'name': 'halton-generator-n%d' % n, 'task': 'halton_generator', 'args': {'N': 3, 'n': n}, 'weight': n,
                     'engine': {'validate': 3}})
+    out.append({'name': 'halton-sample-counts-around-powers-of-the-base-concrete', 'task': 'halton_sample_counts',
+                'args': {'limit': 5000 if Q else 70000}, 'weight': 5, 'engine': {'validate': 1}})
     out.append({'name': 'halton-dimensions', 'task': 'halton_dimensions', 'args': {'dims': (1, 40) if Q else (1, 200), 'N': 3 if Q else 4},
                 'weight': 5, 'engine': {'validate': 1}})
     out.append({'name': 'halton-generator-1x1', 'task': 'halton_generator', 'args': {'N': 1, 'n': 1}, 'weight': 1, 'engine': {'validate': 3}})
